@@ -287,7 +287,7 @@ func c43JudgeMutant(fail func(string, ...any), c *c43Case, pass []byte, mutant [
 }
 
 func TestC43_EncryptedKeys(t *testing.T) {
-	vk.Check(t, 6000, func(rt *rapid.T) {
+	vk.Check(t, 8000, func(rt *rapid.T) {
 		c := c43DrawCase(rt)
 		fail := func(f string, a ...any) { rt.Fatalf(f, a...) }
 		// right passphrase, with and without trailing data
@@ -347,7 +347,7 @@ var c43Codecs = []c43Codec{
 }
 
 func TestC43_KeyPEMHelpers(t *testing.T) {
-	vk.Check(t, 20000, func(rt *rapid.T) {
+	vk.Check(t, 30000, func(rt *rapid.T) {
 		ci := rapid.IntRange(0, len(c43Codecs)-1).Draw(rt, "codec")
 		cd := c43Codecs[ci]
 		curve := rapid.SampledFrom([]Curve{Curve_CURVE25519, Curve_P256}).Draw(rt, "curve")
